@@ -93,6 +93,7 @@ func Main(registry map[string]func(*X)) {
 			if *bare {
 				x.MakeBare()
 			}
+			x.PrepareBarrier()
 			xs[c] = x
 			wg.Add(1)
 			go func(x *X) {
